@@ -1801,6 +1801,350 @@ func brokenDetailProbe(c *Ctx) {
 	}
 }
 
+// foreignDetailProbe (C05 converse / C06, F40, oracle only): a conformant Connect error whose
+// details include a message type this client's binary does not know (another service's own
+// error-detail type). The client cannot give the application that detail - but the response
+// carries a valid protocol-level error, and its code and message are the call's outcome: not the
+// code derived from the HTTP status, not "internal".
+func foreignDetailProbe(c *Ctx) {
+	body := `{"code":"permission_denied","message":"no","details":[{"@type":"type.googleapis.com/acme.v9.NotLinkedIn","x":1}]}`
+	for _, kind := range []string{"unary", "server"} {
+		for _, status := range []int{404, 403, 500} {
+			if kind == "server" && status != 404 {
+				continue
+			}
+			desc := fmt.Sprintf("Connect %s call, a peer answers with a well-formed permission_denied error (HTTP %d) that has a detail of a type unknown to this binary", kind, status)
+			c.Count("probe-foreign-detail")
+			got := safely(func() string {
+				var hc connect.HTTPClient
+				if kind == "unary" {
+					hc = &staticClient{status: status, header: http.Header{"Content-Type": {"application/json"}}, body: []byte(body)}
+				} else {
+					end := []byte(`{"error":` + body + `,"metadata":{"X-T":["1"]}}`)
+					hc = &staticClient{status: 200, header: http.Header{"Content-Type": {"application/connect+raw"}}, body: append(frame(0, []byte{1}), frame(2, end)...)}
+				}
+				cl := connect.NewClient[[]byte, []byte](hc, "http://h/s/m", connect.WithCodec(rawCodec{"raw"}))
+				var err error
+				if kind == "unary" {
+					_, err = cl.CallUnary(context.Background(), connect.NewRequest(&[]byte{1}))
+				} else {
+					st, cerr := cl.CallServerStream(context.Background(), connect.NewRequest(&[]byte{1}))
+					if cerr != nil {
+						return "call: " + cerr.Error()
+					}
+					defer st.Close()
+					for st.Receive() {
+					}
+					err = st.Err()
+				}
+				var ce *connect.Error
+				if !errors.As(err, &ce) {
+					return fmt.Sprintf("not a coded error: %v", err)
+				}
+				return fmt.Sprintf("%s/%s", ce.Code(), ce.Message())
+			})
+			if got != "permission_denied/no" {
+				c.Fail("peer-error-foreign-detail", desc, got, "the peer's error - code permission_denied, message \"no\" - is the outcome of the call")
+				c.Fail("client-error-foreign-detail", desc, got, "the peer's error - code permission_denied, message \"no\" - is the outcome of the call")
+			}
+		}
+	}
+}
+
+// freshClientPoolProbe (C06, oracle only): the very first compressed response a freshly built
+// client sees is labelled gzip and is not gzip at all - the decompressor its pool hands out has
+// never been reset successfully: the call fails with a coded error, it does not panic (round
+// 11, C06-mo; the handler-side twin is freshPoolProbe).
+func freshClientPoolProbe(c *Ctx) {
+	garbage := []byte("this is definitely not compressed data")
+	for _, proto := range []string{"connect", "grpc", "grpcweb"} {
+		for _, kind := range []string{"unary", "server"} {
+			for _, payload := range [][]byte{garbage, {0x1f, 0x8b, 8}} {
+				desc := fmt.Sprintf("fresh %s client, %s call; the response says gzip and carries %d bytes that are no gzip stream", proto, kind, len(payload))
+				c.Count("probe-fresh-client-pool")
+				got := safely(func() string {
+					header := http.Header{"Content-Type": {ctFor(proto, kind, "raw")}}
+					encH, _ := encHeaderFor(proto, kind)
+					header[encH] = []string{"gzip"}
+					body := payload
+					trailer := http.Header{}
+					if !(proto == "connect" && kind == "unary") {
+						body = frame(1, payload)
+						switch proto {
+						case "connect":
+							body = append(body, frame(2, []byte("{}"))...)
+						case "grpc":
+							trailer = http.Header{"Grpc-Status": {"0"}}
+						default:
+							body = append(body, frame(0x80, []byte("grpc-status: 0\r\n"))...)
+						}
+					}
+					hc := &staticClient{status: 200, header: header, trailer: trailer, body: body}
+					cl := connect.NewClient[[]byte, []byte](hc, "http://h/s/m", append(protoOpts(proto), connect.WithCodec(rawCodec{"raw"}))...)
+					var err error
+					if kind == "unary" {
+						_, err = cl.CallUnary(context.Background(), connect.NewRequest(&[]byte{1}))
+					} else {
+						st, cerr := cl.CallServerStream(context.Background(), connect.NewRequest(&[]byte{1}))
+						if cerr != nil {
+							return "call=" + codeName(cerr)
+						}
+						defer st.Close()
+						for st.Receive() {
+						}
+						err = st.Err()
+					}
+					return "call=" + codeName(err)
+				})
+				if got != "call=invalid_argument" {
+					c.Fail("client-fresh-pool", desc, got, "an undecodable payload fails the call with invalid_argument, without a panic")
+				}
+			}
+		}
+	}
+}
+
+// respAndErrClient returns a response together with an error (a transport that had something
+// in hand when it failed).
+type respAndErrClient struct {
+	inner *staticClient
+	err   error
+}
+
+func (r *respAndErrClient) Do(req *http.Request) (*http.Response, error) {
+	res, _ := r.inner.Do(req)
+	return res, r.err
+}
+
+// onceFailingBody hands out its first bytes together with an error that is not io.EOF, once;
+// asked again it is at its end (an error that is not sticky).
+type onceFailingBody struct {
+	data []byte
+	err  error
+	done bool
+}
+
+func (b *onceFailingBody) Read(p []byte) (int, error) {
+	if b.done {
+		return 0, io.EOF
+	}
+	b.done = true
+	n := copy(p, b.data)
+	return n, b.err
+}
+func (b *onceFailingBody) Close() error { return nil }
+
+// transportFailureProbes (C04, oracle only): the transport fails "at any point" - also in ways
+// net/http's own client does not: Do returns an error *and* a response; a body read returns
+// bytes *and* an error and claims a clean end when asked again. The call fails with a coded
+// error; nothing that arrived that way is a complete answer (round 11, C04-mo, C04-mp).
+func transportFailureProbes(c *Ctx) {
+	for _, proto := range []string{"connect", "grpc", "grpcweb"} {
+		for _, kind := range []string{"unary", "server"} {
+			for _, variant := range []string{"Do returns a complete response and an error", "the body returns its first bytes with an error, then io.EOF"} {
+				desc := fmt.Sprintf("%s %s call: %s", proto, kind, variant)
+				c.Count("probe-transport-failure")
+				got := safely(func() string {
+					header := http.Header{"Content-Type": {ctFor(proto, kind, "raw")}}
+					trailer := http.Header{}
+					payload := []byte{1, 2, 3, 4, 5}
+					body := payload
+					if !(proto == "connect" && kind == "unary") {
+						body = frame(0, payload)
+						switch proto {
+						case "connect":
+							body = append(body, frame(2, []byte("{}"))...)
+						case "grpc":
+							trailer = http.Header{"Grpc-Status": {"0"}}
+						default:
+							body = append(body, frame(0x80, []byte("grpc-status: 0\r\n"))...)
+						}
+					}
+					var hc connect.HTTPClient
+					if strings.HasPrefix(variant, "Do") {
+						hc = &respAndErrClient{inner: &staticClient{status: 200, header: header, trailer: trailer, body: body}, err: errors.New("read tcp 10.0.0.1:443: connection reset by peer")}
+					} else {
+						cut := 2
+						if len(body) > 5 {
+							cut = 7 // the prefix and two bytes of the payload
+						}
+						hc = &bodyClient{status: 200, header: header, body: &onceFailingBody{data: body[:cut], err: errors.New("read tcp 10.0.0.1:443: connection reset by peer")}}
+					}
+					cl := connect.NewClient[[]byte, []byte](hc, "http://h/s/m", append(protoOpts(proto), connect.WithCodec(rawCodec{"raw"}))...)
+					var err error
+					n := 0
+					if kind == "unary" {
+						var res *connect.Response[[]byte]
+						res, err = cl.CallUnary(context.Background(), connect.NewRequest(&[]byte{1}))
+						if err == nil && res != nil {
+							n = 1
+						}
+					} else {
+						st, cerr := cl.CallServerStream(context.Background(), connect.NewRequest(&[]byte{1}))
+						if cerr != nil {
+							err = cerr
+						} else {
+							defer st.Close()
+							for st.Receive() {
+								n++
+							}
+							err = st.Err()
+						}
+					}
+					if err == nil {
+						return fmt.Sprintf("success with %d message(s)", n)
+					}
+					var ce *connect.Error
+					if !errors.As(err, &ce) || ce.Code() == 0 {
+						return "an error that is not coded: " + err.Error()
+					}
+					return "failed"
+				})
+				if got != "failed" {
+					c.Fail("term-transport-failure-lost", desc, got, "a failure of the transport fails the call with a coded error")
+				}
+			}
+		}
+	}
+}
+
+// plainErrorAfterDeadlineProbe (C02, oracle only): "a plain Go error arrives as code unknown with
+// its text" - also when the handler returns it after its own deadline has passed (a deadline
+// the peer's timeout header set, which the caller's context does not share: a proxy's, a raw
+// client's). The handler's error is not a context error and is not to be re-labelled as one
+// (round 11, C02-mp).
+func plainErrorAfterDeadlineProbe(c *Ctx) {
+	for _, proto := range []string{"connect", "grpc", "grpcweb"} {
+		for _, kind := range []string{"unary", "server"} {
+			desc := fmt.Sprintf("%s %s handler under a 15 ms timeout header returns errors.New(\"backend said no\") after 60 ms", proto, kind)
+			c.Count("probe-plain-error-after-deadline")
+			got := safely(func() string {
+				fail := func(ctx context.Context) error {
+					select {
+					case <-ctx.Done():
+					case <-time.After(2 * time.Second):
+						return errors.New("the handler's context never ended")
+					}
+					time.Sleep(20 * time.Millisecond)
+					return errors.New("backend said no")
+				}
+				var h *connect.Handler
+				if kind == "unary" {
+					h = connect.NewUnaryHandler("/s/m", func(ctx context.Context, r *connect.Request[[]byte]) (*connect.Response[[]byte], error) {
+						return nil, fail(ctx)
+					}, connect.WithCodec(rawCodec{"raw"}))
+				} else {
+					h = connect.NewServerStreamHandler("/s/m", func(ctx context.Context, r *connect.Request[[]byte], s *connect.ServerStream[[]byte]) error {
+						_ = s.Send(&[]byte{1})
+						return fail(ctx)
+					}, connect.WithCodec(rawCodec{"raw"}))
+				}
+				var body []byte
+				if proto == "connect" && kind == "unary" {
+					body = []byte{}
+				} else {
+					body = frame(0, nil)
+				}
+				req := httptest.NewRequest(http.MethodPost, "/s/m", bytes.NewReader(body))
+				req.ProtoMajor, req.ProtoMinor, req.Proto = 2, 0, "HTTP/2.0"
+				req.Header["Content-Type"] = []string{ctFor(proto, kind, "raw")}
+				if proto == "connect" {
+					req.Header["Connect-Timeout-Ms"] = []string{"15"}
+				} else {
+					req.Header["Grpc-Timeout"] = []string{"15m"}
+				}
+				rec := httptest.NewRecorder()
+				h.ServeHTTP(rec, req)
+				res := rec.Result()
+				b, _ := io.ReadAll(res.Body)
+				header := http.Header{}
+				for k, v := range res.Header {
+					if !strings.HasPrefix(k, http.TrailerPrefix) {
+						header[k] = v
+					}
+				}
+				hc := &staticClient{status: res.StatusCode, header: header, trailer: res.Trailer, body: b}
+				cl := connect.NewClient[[]byte, []byte](hc, "http://h/s/m", append(protoOpts(proto), connect.WithCodec(rawCodec{"raw"}))...)
+				var err error
+				if kind == "unary" {
+					_, err = cl.CallUnary(context.Background(), connect.NewRequest(&[]byte{1}))
+				} else {
+					st, cerr := cl.CallServerStream(context.Background(), connect.NewRequest(&[]byte{1}))
+					if cerr != nil {
+						return "call: " + cerr.Error()
+					}
+					defer st.Close()
+					for st.Receive() {
+					}
+					err = st.Err()
+				}
+				var ce *connect.Error
+				if !errors.As(err, &ce) {
+					return fmt.Sprintf("not a coded error: %v", err)
+				}
+				return ce.Code().String() + "/" + ce.Message()
+			})
+			if got != "unknown/backend said no" {
+				c.Fail("rt-error-plain-after-deadline", desc, got, "a plain Go error arrives as code unknown with its text")
+			}
+		}
+	}
+}
+
+// headerBeforeReceiveProbe (C11, oracle only): a client that asks a stream for the response
+// headers before its first Receive gets them - the accessor waits for the response - in every
+// protocol, several values and -Bin values included (round 11, C11-mo).
+func headerBeforeReceiveProbe(c *Ctx) {
+	for _, proto := range []string{"connect", "grpc", "grpcweb"} {
+		for _, kind := range []string{"server", "bidi"} {
+			desc := fmt.Sprintf("%s %s stream over HTTP/2: ResponseHeader() right after the request was sent, before any Receive; the handler answers 40 ms later", proto, kind)
+			c.Count("probe-header-before-receive")
+			got := safely(func() string {
+				set := func(h http.Header) {
+					time.Sleep(40 * time.Millisecond)
+					h.Add("X-Multi", "a")
+					h.Add("X-Multi", "b")
+					h.Set("X-Key-Bin", connect.EncodeBinaryHeader([]byte{0, 255, 7}))
+				}
+				var h *connect.Handler
+				if kind == "server" {
+					h = connect.NewServerStreamHandler("/s/m", func(ctx context.Context, r *connect.Request[[]byte], s *connect.ServerStream[[]byte]) error {
+						set(s.ResponseHeader())
+						return s.Send(&[]byte{1})
+					}, connect.WithCodec(rawCodec{"raw"}))
+				} else {
+					h = connect.NewBidiStreamHandler("/s/m", func(ctx context.Context, s *connect.BidiStream[[]byte, []byte]) error {
+						set(s.ResponseHeader())
+						return s.Send(&[]byte{1})
+					}, connect.WithCodec(rawCodec{"raw"}))
+				}
+				srv := startServer(h, true)
+				defer srv.Close()
+				cl := connect.NewClient[[]byte, []byte](srv.Client(), srv.URL+"/s/m", protoOpts(proto)...)
+				var hdr http.Header
+				if kind == "server" {
+					st, err := cl.CallServerStream(context.Background(), connect.NewRequest(&[]byte{1}))
+					if err != nil {
+						return "call: " + err.Error()
+					}
+					defer st.Close()
+					hdr = st.ResponseHeader().Clone()
+				} else {
+					st := cl.CallBidiStream(context.Background())
+					_ = st.Send(&[]byte{1})
+					_ = st.CloseRequest()
+					defer st.CloseResponse()
+					hdr = st.ResponseHeader().Clone()
+				}
+				return strings.Join(hdr.Values("X-Multi"), ",") + " " + hdr.Get("X-Key-Bin")
+			})
+			if got != "a,b "+connect.EncodeBinaryHeader([]byte{0, 255, 7}) {
+				c.Fail("rt-header-before-receive", desc, got, "the response headers the handler set are visible to the client")
+			}
+		}
+	}
+}
+
 // codeTextProbes (C06/C18, oracle only): in the JSON forms of an error the code is one of the
 // defined lower-case names or code_<number>. A peer's text that differs from a valid one only
 // by letter case (gRPC enum spelling, a Kelvin sign) is not a code: the client treats it exactly
@@ -2672,6 +3016,11 @@ func extraProbes(c *Ctx) {
 	unserializableErrorProbe(c)
 	brokenDetailProbe(c)
 	sharedBackingProbe(c)
+	foreignDetailProbe(c)
+	freshClientPoolProbe(c)
+	transportFailureProbes(c)
+	plainErrorAfterDeadlineProbe(c)
+	headerBeforeReceiveProbe(c)
 	codeTextProbes(c)
 	terminatorLostProbes(c)
 	truncatedErrorBodyProbes(c)
@@ -2962,7 +3311,7 @@ func mutatedResponses(c *Ctx) {
 				cdecOp(c, cdecLine(proto, kind, &sresp{status: status, header: hdr{"Content-Type": {ct}}}))
 			}
 			// the HTTP status decides first: an encoding the client does not know changes nothing then
-			for _, status := range []int{401, 404, 429, 503, 418} {
+			for _, status := range []int{401, 404, 429, 503, 418, 201, 204, 206, 302, 304, 399, 100} {
 				encH, _ := encHeaderFor(proto, kind)
 				cdecOp(c, cdecLine(proto, kind, &sresp{status: status, header: hdr{"Content-Type": {ct}, encH: {"zstd"}}}))
 			}
